@@ -8,7 +8,7 @@ import time
 
 from . import common
 from . import io_paths as IO
-from .common import clist, cbool, cnat
+from .common import clist, cbool, cnat, ctext
 
 RULE = ('sequences of operations (reads of raw byte chunks cut at arbitrary offsets incl. inside multi-byte characters, send / write / sendline with bytes and text payloads over all byte '
         'values and non-ASCII text, sendcontrol / sendeof / sendintr) x {pty, fd, popen, socket} x bytes / utf-8 mode x every combination of the three log files; the REAL read paths and '
@@ -225,6 +225,132 @@ def oracle_C08(ctx, pexpect, results, real_peers):
                 return
     if real_peers:
         real_peer_send(ctx, pexpect)
+        send_after_await(ctx, pexpect)
+
+
+def write_all_cases(ctx, pexpect, n):
+    """job write-all: the REAL SpawnBase._write_all with os.write answered from a schedule (accept k bytes, or refuse for the
+    moment) and the wait for writability a no-op; pieces written and return value against IO/Model.v write_all"""
+    import pexpect.spawnbase as sb
+    rng = ctx.rng
+    cases = []
+    FD = 987
+    for it in range(n):
+        b = bytes(rng.randrange(256) for _ in range(rng.randint(0, 12)))
+        accepts = [rng.choice([None, None, 0, 1, 2, 3, 5, 100]) for _ in range(rng.randint(0, 4))] + [100] * 3 + [1] * 14
+        sched = list(accepts)
+        pieces = []
+        real_write, real_sel = os.write, sb.select_ignore_interrupts
+
+        def w(fd, data):
+            if fd != FD:
+                return real_write(fd, data)
+            a = sched.pop(0)
+            if a is None:
+                raise BlockingIOError(11, 'would block')
+            k = min(a, len(data))
+            pieces.append(bytes(data[:k]))
+            return k
+        os.write = w
+        sb.select_ignore_interrupts = lambda r, wl, x, timeout=None: ([], list(wl), [])
+        try:
+            c = pexpect.spawn(None)
+            c.closed = True
+            try:
+                ret = c._write_all(FD, b)
+            except Exception as e:
+                ctx.hit('C08/write-all-raises', '_write_all raised %r' % (e,), {'payload': list(b), 'accepts': accepts})
+                return
+        finally:
+            os.write, sb.select_ignore_interrupts = real_write, real_sel
+        used = len(accepts) - len(sched)
+        if ret != len(b):
+            ctx.hit('C08/write-all-return', '_write_all returned %r for %d bytes' % (ret, len(b)), {'payload': list(b), 'accepts': accepts})
+            return
+        cases.append(('(%s, %s)' % (clist(['None' if a is None else '(Some %s)' % cnat(a) for a in accepts[:used]]), ctext(b)), [pieces, b''], {'payload': list(b), 'accepts': accepts[:used]}))
+    ctx.run_cases('write-all', ['IO.Model', 'IO.Run'], 'run_write_all', 'list (option nat) * list N', cases, shard=500)
+
+
+def send_after_await(ctx, pexpect):
+    """history: an awaited expect() on the object (asyncio makes the descriptor non-blocking and keeps it so), then a payload
+    larger than the kernel buffers to a reading peer: the peer must still receive all of it"""
+    import asyncio
+    import socket
+    import threading
+    from pexpect import fdpexpect
+    size = 300000
+    payload = (b'0123456789abcdef' * (size // 16 + 1))[:size]
+    # pty transport: a raw-mode child counts what it reads up to the sentinel
+    prog = ("import os,tty\ntty.setraw(0)\nos.write(1,b'READY')\nn=0\nwhile True:\n    d=os.read(0,65536)\n    if not d: break\n    n+=len(d)\n"
+            "    if d.endswith(b'\\x04'): break\nos.write(1,('GOT %d.' % n).encode())\n")
+    c = pexpect.spawn(sys.executable, ['-c', prog], timeout=20)
+    try:
+        async def first():
+            return await c.expect('READY', async_=True)
+        loop = asyncio.new_event_loop()
+        try:
+            loop.run_until_complete(first())
+        finally:
+            loop.close()
+        try:
+            n = c.send(payload + b'\x04')
+            c.expect(r'GOT (\d+)\.', timeout=20)
+            got = int(c.match.group(1))
+        except Exception as e:
+            ctx.hit('C08/after-await-pty', 'pty transport: after one awaited expect(), send() of %d bytes to a reading child: %r' % (size + 1, e), {'size': size})
+            return
+        if got != size + 1:
+            ctx.hit('C08/after-await-pty', 'pty transport: after one awaited expect(), send() of %d bytes returned %r and the reading child received %d' % (size + 1, n, got), {'size': size})
+            return
+    finally:
+        c.close(force=True)
+    # fd transport on a socket pair, the peer reads in a thread
+    a, b = socket.socketpair()
+    f = fdpexpect.fdspawn(a.fileno(), timeout=20)
+    received = []
+
+    def reader():
+        total = 0
+        while total < size:
+            d = b.recv(65536)
+            if not d:
+                break
+            total += len(d)
+        received.append(total)
+    try:
+        b.sendall(b'READY')
+
+        async def first2():
+            return await f.expect('READY', async_=True)
+        loop = asyncio.new_event_loop()
+        try:
+            loop.run_until_complete(first2())
+        finally:
+            loop.close()
+        th = threading.Thread(target=reader)
+        th.start()
+        try:
+            n = f.send(payload)
+        except Exception as e:
+            n = repr(e)
+        th.join(10)
+        if not received or received[0] != size:
+            try:
+                b.shutdown(socket.SHUT_RDWR)
+            except OSError:
+                pass
+            th.join(2)
+            ctx.hit('C08/after-await-fd', 'fd transport: after one awaited expect(), send() of %d bytes gave %r and the reading peer received %r' % (size, n, received[:1]), {'size': size})
+            return
+    finally:
+        f.child_fd = -1           # the asyncio transport closes its pipe object (the spawn) when it is collected: nothing left to close
+        f.closed = True
+        for s_ in (a, b):
+            try:
+                s_.close()
+            except OSError:
+                pass
+    ctx.oracle_stats['send_after_await'] = 2
 
 
 def real_peer_send(ctx, pexpect):
@@ -478,6 +604,8 @@ def run_property(ctx, which, props_file):
     cases, results = corr_cases(ctx, pexpect, 20000 if thorough else 3000)
     if os.path.exists(os.path.join(common.COQ, 'IO/Run.vo')):
         ctx.run_cases('io-paths', ['IO.Model', 'IO.Run'], 'run_io', 'bool * (bool * bool * bool) * nat * list op', cases, shard=400)
+        if which == 'C08':
+            write_all_cases(ctx, pexpect, 4000 if thorough else 800)
         if which == 'C11':
             # the log attributes are reassigned in the middle of the session: they must be looked up at every call
             lcases, _ = corr_cases(ctx, pexpect, 5000 if thorough else 800, setlogs=True)
